@@ -332,4 +332,187 @@ theorem callFunction_safe (f n : Nat) (s : St) (hg : Good s) : SafeAt s (callFun
       · exact SafeAt_err_bind _ s hg
       · exact hfin s hg
 
+/-! ### single instructions -/
+
+theorem good_pc {s : St} (hg : Good s) (pc : Int) : Good { s with pc := pc } :=
+  ⟨hg.data, hg.linear, hg.addr, hg.susp, hg.lazies⟩
+
+theorem incPc_safe (s : St) (hg : Good s) : SafeAt s incPc := by
+  unfold incPc
+  exact SafeAt_modify _ s (good_pc hg _)
+
+theorem run_incPc (s : St) : incPc.run s = (.ok PUnit.unit, { s with pc := s.pc + 1 }) := rfl
+
+theorem jumpTo_safe (p : Int) (s : St) (hg : Good s) : SafeAt s (jumpTo p) := by
+  unfold jumpTo
+  refine SafeAt_get ?_
+  split
+  · exact SafeAt_err s hg
+  · exact SafeAt_set _ s (good_pc hg _)
+
+/-- the instructions that call into the mutually recursive part of the interpreter -/
+def isCall : Instr → Bool
+  | .callArr _ => true
+  | .callExpr _ _ => true
+  | _ => false
+
+theorem then_safe {α β} {m : M α} {k : M β} {s : St} (hm : SafeAt s m)
+    (hk : ∀ s', Good s' → SafeAt s' k) : SafeAt s (m >>= fun _ => k) :=
+  SafeAt_bind hm (fun _ s' h => hk s' (good_of_safe hm h))
+
+/-- Every instruction that does not call (24 of the 26 instruction kinds of the model):
+one step from a state without nil cells does not panic — except the bind on an empty scope
+stack — and leaves a state without nil cells. -/
+theorem exec_step_safe (fuel : Nat) (i : Instr) (hi : isCall i = false) (s : St) (hg : Good s) :
+    SafeAt s (exec (fuel + 1) i) := by
+  cases i with
+  | callArr n => simp [isCall] at hi
+  | callExpr c a => simp [isCall] at hi
+  | push v =>
+    rw [exec]
+    exact then_safe (pushData_safe v s hg) incPc_safe
+  | pop =>
+    rw [exec]
+    refine SafeAt_get ?_
+    cases hd : s.data with
+    | nil => exact incPc_safe s hg
+    | cons a rest =>
+      have hrest : allSome rest := allSome_tail (by have := hg.data; rwa [hd] at this)
+      cases a with
+      | none => exact absurd rfl (hg.data none (by rw [hd]; exact List.mem_cons_self))
+      | some v => exact SafeAt_set _ s ⟨hrest, hg.linear, hg.addr, hg.susp, hg.lazies⟩
+  | dup =>
+    rw [exec]
+    refine SafeAt_get ?_
+    cases hd : s.data with
+    | nil => exact SafeAt_err s hg
+    | cons a rest =>
+      cases a with
+      | none => exact absurd rfl (hg.data none (by rw [hd]; exact List.mem_cons_self))
+      | some v => exact then_safe (pushData_safe v s hg) incPc_safe
+  | envToStack x =>
+    rw [exec]
+    refine SafeAt_get ?_
+    split
+    · exact then_safe (pushData_safe _ s hg) incPc_safe
+    · exact SafeAt_err s hg
+  | popStackPutEnv x =>
+    rw [exec]
+    refine SafeAt_bind (popData_safe s hg) (fun v s' h => ?_)
+    have hg' := good_of_safe (popData_safe s hg) h
+    exact then_safe (incPc_safe s' hg') (fun s'' hg'' => bindTop_safe x v s'' hg'')
+  | update x =>
+    rw [exec]
+    refine SafeAt_bind (popData_safe s hg) (fun v s' h => ?_)
+    have hg' := good_of_safe (popData_safe s hg) h
+    refine then_safe (incPc_safe s' hg') (fun s'' hg'' => ?_)
+    refine SafeAt_get ?_
+    split
+    · exact setInScope_safe _ _ _ s'' hg''
+    · exact bindTop_safe x v s'' hg''
+  | jump off =>
+    rw [exec]
+    exact SafeAt_get (jumpTo_safe _ s hg)
+  | goto loc =>
+    rw [exec]
+    exact jumpTo_safe _ s hg
+  | branch dir off =>
+    rw [exec]
+    refine SafeAt_bind (popData_safe s hg) (fun v s' h => ?_)
+    have hg' := good_of_safe (popData_safe s hg) h
+    refine SafeAt_get ?_
+    split
+    · exact jumpTo_safe _ s' hg'
+    · exact incPc_safe s' hg'
+  | ret =>
+    rw [exec]
+    refine SafeAt_get ?_
+    cases ha : s.addr with
+    | nil => exact SafeAt_err s hg
+    | cons a rest =>
+      have hrest : allSome rest := allSome_tail (by have := hg.addr; rwa [ha] at this)
+      cases a with
+      | none => exact absurd rfl (hg.addr none (by rw [ha]; exact List.mem_cons_self))
+      | some fp => exact SafeAt_set _ s ⟨hg.data, hg.linear, hrest, hg.susp, hg.lazies⟩
+  | addScope =>
+    rw [exec]
+    exact SafeAt_modify _ s ⟨hg.data, allSome_cons hg.linear, hg.addr, hg.susp, hg.lazies⟩
+  | addFuncScope t =>
+    rw [exec]
+    exact SafeAt_modify _ s ⟨hg.data, allSome_cons hg.linear, hg.addr, hg.susp, hg.lazies⟩
+  | removeScope =>
+    rw [exec]
+    exact then_safe (incPc_safe s hg) popScope_safe
+  | createClosure t =>
+    rw [exec]
+    refine then_safe (incPc_safe s hg) (fun s' hg' => ?_)
+    refine SafeAt_get ?_
+    refine then_safe (SafeAt_set _ s' ⟨hg'.data, hg'.linear, hg'.addr, hg'.susp, hg'.lazies⟩) (fun s'' hg'' => pushData_safe _ s'' hg'')
+  | prepareCall x nargs =>
+    rw [exec]
+    refine SafeAt_get ?_
+    dsimp only
+    split
+    · exact then_safe (wrangleOptargs_safe _ _ s hg) incPc_safe
+    · exact incPc_safe s hg
+  | tailGuard x skip =>
+    rw [exec]
+    refine SafeAt_get ?_
+    have hset : SafeAt s (set { s with pc := s.pc + skip } : M PUnit) :=
+      SafeAt_set _ s ⟨hg.data, hg.linear, hg.addr, hg.susp, hg.lazies⟩
+    split
+    · split
+      · exact incPc_safe s hg
+      · exact hset
+    · exact hset
+  | pushLazy e =>
+    rw [exec]
+    refine SafeAt_get ?_
+    have hg1 : Good { s with lazies := s.lazies ++ [({ e, stack := s.linear, curfunc := s.curfunc, value := none } : LazyObj)] } :=
+      ⟨hg.data, hg.linear, hg.addr, hg.susp, by
+        intro z hz
+        rcases List.mem_append.mp hz with h | h
+        · exact hg.lazies z h
+        · simp at h; subst h; exact hg.linear⟩
+    refine then_safe (SafeAt_set _ s hg1) (fun s' hg' => ?_)
+    exact then_safe (pushData_safe _ s' hg') incPc_safe
+  | loopStart l => rw [exec]; exact incPc_safe s hg
+  | label => rw [exec]; exact incPc_safe s hg
+  | pushMark l =>
+    rw [exec]
+    exact then_safe (pushData_safe _ s hg) incPc_safe
+  | popUntilMark l =>
+    rw [exec]
+    refine then_safe (incPc_safe s hg) (fun s' hg' => ?_)
+    exact SafeAt_get (popToMark_safe l true _ s' hg')
+  | clearMark l =>
+    rw [exec]
+    refine SafeAt_get ?_
+    exact then_safe (popToMark_safe l false _ s hg) incPc_safe
+  | brk l n =>
+    rw [exec]
+    refine SafeAt_get ?_
+    split
+    · exact SafeAt_err s hg
+    · exact then_safe (popScopes_safe n s hg) (fun s' hg' => SafeAt_modify _ s' (good_pc hg' _))
+  | cont l n =>
+    rw [exec]
+    refine SafeAt_get ?_
+    split
+    · exact SafeAt_err s hg
+    · exact then_safe (popScopes_safe n s hg) (fun s' hg' => SafeAt_modify _ s' (good_pc hg' _))
+  | assign =>
+    rw [exec]
+    refine then_safe (incPc_safe s hg) (fun s1 hg1 => ?_)
+    refine SafeAt_bind (popData_safe s1 hg1) (fun rhs s2 h2 => ?_)
+    have hg2 := good_of_safe (popData_safe s1 hg1) h2
+    refine SafeAt_bind (popData_safe s2 hg2) (fun lhs s3 h3 => ?_)
+    have hg3 := good_of_safe (popData_safe s2 hg2) h3
+    refine SafeAt_get ?_
+    split
+    · split
+      · exact pushData_safe _ s3 hg3
+      · exact SafeAt_err s3 hg3
+    · exact SafeAt_err s3 hg3
+
 end ZygoVerif.VMSafe
